@@ -249,6 +249,11 @@ func c17Stream(cs *drv.Case, vals []cval, stream []byte, cut int, e error, withD
 	for i, v := range vals {
 		ferr := streamErr(v, br)
 		if ferr == nil {
+			if cs.R.Intn(3) == 0 {
+				// the application is done with this value: what the source said with its last bytes is not forgotten
+				dr.Release(nil)
+				cs.C.Obs("releases between the values of a failing stream", 1)
+			}
 			continue
 		}
 		// the stream is a valid encoding cut short: this failure is caused by the underlying reader
